@@ -61,6 +61,12 @@ CHECKS = {
  "C19": ("exploration", "runtime monitoring: quiescent histories of a multi-node cluster of real Cluster objects over an in-memory Remoter (real ProtoSerializer round trip, PRNG delivery order), compared on every node with a sequential reference model of the cluster; producer-run counters per node",
          "After every operation of every generated history all nodes agreed with the model (activation placement by the select function, uniqueness, propagation, topology transfer to joiners, deactivation, purge on leave).",
          "in-memory network instead of TCP; concurrent conflicting activations out of scope", "DESIGN.md §4 C19"),
+ "C17": ("exploration", "runtime monitoring over real loopback TCP (public API only, child processes in private network namespaces): exactly-once/order/sender oracles on recorded deliveries in up phases, event-stream monitors for RemoteUnreachableEvent and stream dead letters in down phases, peer restarts on the same address, listener probes",
+         "All up phases delivered exactly once, in per-(sender,target) order, with senders and correlated replies; every down phase reported the peer unreachable and dead-lettered exactly the burst; after each peer restart fresh sends got through (also with senders running across the peer's death and delays injected before registry writes); Stop closed the listener; double Start/Stop harmless.",
+         "few down phases per run (3 s each); in-flight messages at connection loss not judged; TLS transport not exercised", "DESIGN.md §4 C17"),
+ "C20": ("exploration", "runtime monitoring of the real SelfManaged provider (zeroconf on, private network namespace): handshake replies captured by a probe actor, agent view and restart events compared with a list model after every step; unreachable reports injected through the event stream and flushed with a sentinel member",
+         "After every step of every generated sequence the provider's list (as answered to handshakes), the agent's view and the model agreed; reports for non-members changed nothing; the provider never restarted.",
+         "member hosts are listening remotes; hosts unique; own address never reported", "DESIGN.md §4 C20"),
 }
 PENDING = "check under construction in this session; not claimed until it is built and silent on the unchanged tree"
 RACE = {"C01","C02","C03","C10","C14"}
